@@ -623,7 +623,7 @@ def r05_3(ctx):
         for nn, bx, t in sup.calls():
             f = fn_of(t) or {}
             cb = lib.by_id.get(f.get("resolved") or f.get("def"))
-            if cb and cb.raw.get("ret_ty", "").startswith("std::result::Result<&[u8], std::io::Error>") and len(t["args"]) == 2:
+            if common.is_prefix_accessor(lib, cb) and len(t["args"]) == 2:
                 n += 1
                 v = const_value(t["args"][1]) if t["args"][1].get("k") == "const" else None
                 if v is None:
@@ -744,14 +744,14 @@ def r05_6(ctx):
     for tb in common.trial_functions(ctx.facts).values():
         for _, bx_, t_ in Super(lib, tb, depth=2).calls():
             cb_ = lib.by_id.get((fn_of(t_) or {}).get("resolved") or (fn_of(t_) or {}).get("def"))
-            if cb_ and cb_.raw.get("ret_ty", "").startswith("std::result::Result<&[u8], std::io::Error>") and len(t_["args"]) == 2:
+            if common.is_prefix_accessor(lib, cb_) and len(t_["args"]) == 2:
                 v_ = common.accessor_const(lib, bx_, t_["args"][1])
                 if isinstance(v_, int):
                     min_trial = v_ if min_trial is None else min(min_trial, v_)
 
     def _small_prefix(bx_, t_):
         cb_ = lib.by_id.get((fn_of(t_) or {}).get("resolved") or (fn_of(t_) or {}).get("def"))
-        if not (cb_ and cb_.raw.get("ret_ty", "").startswith("std::result::Result<&[u8], std::io::Error>") and len(t_["args"]) == 2):
+        if not (common.is_prefix_accessor(lib, cb_) and len(t_["args"]) == 2):
             return False
         v_ = common.accessor_const(lib, bx_, t_["args"][1])
         return isinstance(v_, int) and min_trial is not None and v_ <= min_trial
@@ -1095,7 +1095,7 @@ def r10_4(ctx):
     for nn, bx, t in sup.calls():
         f = fn_of(t) or {}
         cb = lib.by_id.get(f.get("resolved") or f.get("def"))
-        if cb and cb.raw.get("ret_ty", "").startswith("std::result::Result<&[u8], std::io::Error>") and len(t["args"]) == 2:
+        if common.is_prefix_accessor(lib, cb) and len(t["args"]) == 2:
             tr = strace(sup, nn, t["args"][1])
             v = const_value(t["args"][1]) if t["args"][1].get("k") == "const" else (tr.origin[1].get("v") if tr.origin and tr.origin[0] == "const" else None)
             if v is None:
